@@ -68,6 +68,8 @@ def run(ctx):
     _r3_sorted(rc, models[("rdp._rdp_fixed", "segment")], models[("rdp._grdp", "segment")])
     _seeds(rc)
     _r4(rc, models[("rdp.rdp", "smape")])
+    from .common import borrow as _borrow
+    _borrow(rc, "R4", lambda rc_: rm.check_result_pairing(rc_, "R4"))        # every exit of the wrappers returns a table computed for the returned reduction
     _r5(rc)
     res.analysed["termination_argument"] = ("R1 + R1b: each child is a strict sub-range with an interior point; R2: each step of the fixed/global loops "
                                             "retains index left+index in [left+1, right-2], distinct from all earlier ones because ranges only shrink around retained "
@@ -218,10 +220,8 @@ def _r3_threshold(rc: RuleCtx, m: rm.LoopModel):
     a_first, a_last = first.items[0], last.items[0]
     ok = isinstance(a_last, Rat) and a_last.equals(m.left)
     # the first-pushed child must start to the right of the last-pushed one
-    good_first = False
-    for g, v in cases_of(a_first):
-        if isinstance(v, Rat) and not v.equals(m.left):
-            good_first = True
+    cs_ = [(g, v) for g, v in cases_of(a_first) if g_sat(g_and(first.guard, g))]
+    good_first = bool(cs_) and all(isinstance(v, Rat) and not v.equals(m.left) for _g, v in cs_)
     if ok and good_first:
         res.ok("R3", "rdp.rdp", "right child pushed first, left child last: LIFO processes the left part first => retained lefts ascend")
     else:
